@@ -7,6 +7,7 @@ package encryptcookie
 // rewriting while visiting — is the real code.
 
 import (
+	"time"
 	"crypto/cipher"
 	"encoding/base64"
 	"errors"
@@ -72,6 +73,8 @@ func vMkApp(key string, setA, setX *string, seenA, seenB, seenX *string) *fiber.
 		c.Cookie(&fiber.Cookie{Name: "x", Value: *setX})
 		// a name that differs from the excepted one only in letter case is a different cookie
 		c.Cookie(&fiber.Cookie{Name: "X", Value: "capx"})
+		// a cookie with an expiry in the past still carries its value to the client
+		c.Cookie(&fiber.Cookie{Name: "old", Value: "oldv", Expires: time.Unix(1000, 0)})
 		if vSetFails {
 			// cookies set before a handler fails are still response cookies
 			return fiber.NewError(fiber.StatusForbidden, "denied")
@@ -133,11 +136,12 @@ func VH_C20_cookies(caseID int) {
 	vAssert(issuedX == "plainx", "excepted-cookie-unchanged-to-client")
 	vAssert(issued != "", "cookie-issued")
 	vAssert(vRespCookie(f1, "X") != "capx", "case-variant-of-excepted-name-is-encrypted")
+	vAssert(vRespCookie(f1, "old") != "oldv", "expiring-cookie-value-is-encrypted")
 	// the client sees an encryptor output: base64 of nonce || ciphertext of the ideal AEAD
 	raw, derr := base64.StdEncoding.DecodeString(issued)
 	vAssert(derr == nil, "issued-is-base64")
 	vAssert(len(raw) == 12+len(plain)+16, "issued-is-ciphertext-sized")
-	vAssert(len(vSealLog) == 2 && string(raw[12:]) == vSealLog[0].ct, "issued-is-encryptor-output")
+	vAssert(len(vSealLog) == 3 && string(raw[12:]) == vSealLog[0].ct, "issued-is-encryptor-output")
 	vAssert(issued != plain, "issued-is-not-the-plaintext")
 
 	// 2. the client sends a (possibly altered) value back
